@@ -205,7 +205,8 @@ def gen_spec(rng: random.Random, circular=None, length=None, max_genes: int = 14
                                       "ABC transporter ATP-binding protein/permease with a long product name here"])
         gene["gene_feature"] = rng.random() < 0.5
         gene["pseudo"] = rng.random() < 0.05
-        gene["note"] = rng.choice([[], [], ["manually curated"], ["b note", "a note"]])
+        gene["note"] = rng.choice([[], [], ["manually curated"], ["b note", "a note"], ["same remark", "same remark"],
+                                   ["checked", "a note", "checked"]])
         gene["start_codon"] = rng.choice(["ATG", "ATG", "ATG", "GTG", "TTG"])
     spec["genes"] = genes
     spec["misc"] = []
@@ -215,7 +216,8 @@ def gen_spec(rng: random.Random, circular=None, length=None, max_genes: int = 14
             spec["misc"].append({"type": rng.choice(["misc_feature", "tRNA", "regulatory", "repeat_region"]),
                                  "parts": [[s, s + rng.randrange(10, 50)]], "strand": rng.choice([1, -1, 1]),
                                  "quals": rng.choice([{"note": ["something of interest"]}, {"product": ["tRNA-Ala"]},
-                                                      {"note": ["z", "y"], "standard_name": ["thing"]}])})
+                                                      {"note": ["z", "y"], "standard_name": ["thing"]},
+                                                      {"note": ["twice", "twice"]}])})
         if rng.random() < 0.15:
             # a CDS_motif that is not antiSMASH's (no aSTool): kept as ExternalCDSMotif
             s = rng.randrange(0, length - 50)
@@ -298,7 +300,7 @@ def _gen_annotations(rng, spec, rich):
                               "weights": {"acetyl-CoA_7": 342.125, "acetyl-CoA_8|9": 1204.5} if elong else {}}
         if rich and rng.random() < 0.15:
             proto["sideloaded"] = True
-            proto["tool"] = rng.choice(["extool", "other-tool v2"])
+            proto["tool"] = rng.choice(["extool", "other-tool v2", "RODEO: heuristic scoring"])
             proto["extra"] = rng.choice([{}, {"ext_score": ["12.5"]}, {"ext_a": ["x", "y"], "ext_b": ["z"]}])
         protos.append(proto)
     spec["protoclusters"] = protos
@@ -316,7 +318,7 @@ def _gen_annotations(rng, spec, rich):
             if spec["circular"] and rng.random() < 0.3:
                 sub["range"] = [spec["L"] - rng.choice([100, 700]), rng.choice([50, 600])]
         if sub["sideloaded"]:
-            sub["tool"] = rng.choice(["extool", "other-tool v2"])
+            sub["tool"] = rng.choice(["extool", "other-tool v2", "RODEO: heuristic scoring", "a: b: c"])
             sub["extra"] = rng.choice([{}, {"ext_score": ["0.5"]}, {"ext_a": ["x", "y"]}])
         subs.append(sub)
     if rich and not split_layout and rng.random() < 0.06 and spec["L"] > 3000:
